@@ -812,6 +812,41 @@ def ite_adapters(prog):
                 rd[flag] = ps.pop()
             else:
                 why.append("returned value %s" % [show(o)[:50] for o in outs])
+        # a second-level memo in front of the table (a remembered last hit held in a cell of the adapter): what it
+        # remembers is the result *after* the flag was applied, so it answers for one value of the flag only — its key
+        # must tell the two apart, or the hit must be sign-adjusted like a table hit
+        side = []
+        for cs in tg.calls:
+            if cs.callee.name in ("set", "replace") and len(cs.args) == 2 and "arg1." in show(strip(cs.args[0])) and \
+                    "table" not in show(strip(cs.args[0])):
+                cell = show(strip(cs.args[0]))
+                pars, keys = [], []
+                for flag in (0, 1):
+                    v = spec(tg, canon.inline_local(prog, cs.args[1], helper_ok), flag)
+                    tup = [x for x in mir.subterms(v) if x[0] == "agg" and x[1] == "tuple" and len(x[4]) == 2]
+                    if not tup:
+                        continue
+                    val = strip(tup[0][4][1])
+                    pv = None
+                    cands = [val]
+                    if canon.is_payload(val):
+                        cands = canon.option_outcomes(prog, tg, spec(tg, canon.inline_local(prog, val[1][1], helper_ok), flag)) or []
+                    for o in cands:
+                        o = spec(tg, canon.inline_local(prog, o, helper_ok), flag)
+                        base = [x for x in [strip(o)] + list(mir.subterms(o)) if canon.is_payload(x) and mir.is_call(strip(x[1][1]), "get") and "table" in show(x)]
+                        if base:
+                            pv = _parity(o, base[0])
+                    pars.append(pv)
+                    keys.append(show(tup[0][4][0]))
+                reads = [o for flag in (0, 1) for o in (canon.option_outcomes(prog, tg, spec(tg, rt, flag)) or []) if cell in show(o)]
+                if len(pars) == 2 and None not in pars and pars[0] != pars[1] and keys[0].replace("IteComplChoice", "IteChoice") == keys[1].replace("IteComplChoice", "IteChoice") and reads:
+                    if not any(mir.is_call(x, "neg") for o in reads for x in [strip(o)]):
+                        side.append("`%s` remembers a result with the complement flag already applied under a key (%s) that is the same "
+                                    "for a triple and its complemented twin, and a hit is returned as it is: the twin triple gets the "
+                                    "negation of its result" % (cell.replace("arg1.", ""), keys[0][:50]))
+        if side:
+            out.append(inst("CP", key, VIOLATION, get, None, "; ".join(side)))
+            continue
         if len(wr) != 2 or len(rd) != 2:
             out.append(inst("CP", key, UNDECIDED, ins, None, "adapter shape not recognised (write %s, read %s; %s)" % (wr, rd, "; ".join(why)[:160])))
             continue
